@@ -6,7 +6,7 @@ base = json.load(open("/root/.vp/BASELINE.json"))
 stable = set(base["stable_pass"])
 with tempfile.NamedTemporaryFile(suffix=".xml", delete=False) as f: out = f.name
 cmd = ["/venv/bin/python", "-m", "pytest", "-q", "-p", "no:cacheprovider", "--timeout=900", "--continue-on-collection-errors", f"--junitxml={out}"] + paths
-env = dict(os.environ); env.pop("PGMPY_VERIF", None)
+env = dict(os.environ); env.pop("PGMPY_VERIF", None); env["OMP_NUM_THREADS"] = "1"; env["MKL_NUM_THREADS"] = "1"; env["OPENBLAS_NUM_THREADS"] = "1"
 subprocess.run(cmd, cwd=repo, stdout=subprocess.DEVNULL, stderr=subprocess.DEVNULL, env=env)
 passed = set(); seen = set()
 for tc in ET.parse(out).getroot().iter("testcase"):
